@@ -329,3 +329,82 @@ func VH_C03_TicksAndFramesRange() {
 	vassert(vand(got >= floor-1, got <= floor+1), "C03 tick/frame counts resolve to count/rate seconds over the whole range")
 	vreach("end")
 }
+
+// C03 H4: what WriteToTTML hands to the XML encoder denotes the list: regions and styles sorted by id with their
+// parent/style references and inline attributes, one <p> per cue with begin/end and references, runs as spans
+// separated by one <br/> per line break, title/copyright/language - for every iteration order of the maps.
+func VH_C03_PreEncode() {
+	vmode("int")
+	k := choose(vbound("shapes", 12, 36))
+	s := NewSubtitles()
+	s.Metadata = &Metadata{Title: "T", TTMLCopyright: "C", Language: []string{LanguageFrench, LanguageEnglish, "klingon", LanguageJapanese}[k%4]}
+	ns := 1 + k%3
+	ids := []string{"sb", "sa", "sc"}
+	for i := 0; i < ns; i++ {
+		st := &Style{ID: ids[i], InlineStyle: &StyleAttributes{TTMLColor: vstrp("#00ff00")}}
+		s.Styles[st.ID] = st
+	}
+	if ns > 1 {
+		s.Styles[ids[1]].Style = s.Styles[ids[0]]
+	}
+	rg := &Region{ID: "r1", InlineStyle: &StyleAttributes{TTMLOrigin: vstrp("10% 80%")}, Style: s.Styles[ids[k%ns]]}
+	s.Regions[rg.ID] = rg
+	s.Regions["r0"] = &Region{ID: "r0"}
+	st1 := nondetInt64(0, 3599) * 1000000000
+	nl := 1 + (k/3)%2
+	it := &Item{StartAt: time.Duration(st1), EndAt: time.Duration(st1 + 2000000000), Region: rg, Style: s.Styles[ids[(k+1)%ns]], InlineStyle: &StyleAttributes{TTMLTextAlign: vstrp("center")}}
+	for l := 0; l < nl; l++ {
+		it.Lines = append(it.Lines, Line{Items: []LineItem{{Text: "x" + string(rune('0'+l))}, {Text: "y", Style: s.Styles[ids[0]], InlineStyle: &StyleAttributes{TTMLFontStyle: vstrp("italic")}}}})
+	}
+	s.Items = append(s.Items, it, &Item{StartAt: 5000 * time.Second, EndAt: 5001 * time.Second, Lines: []Line{{Items: []LineItem{{Text: "plain"}}}}})
+	vxmlCaptured = nil
+	var buf bytes.Buffer
+	vmaporder(true)
+	err := s.WriteToTTML(&buf)
+	vmaporder(false)
+	vassert(err == nil && len(vxmlCaptured) == 1, "C03 pre-encode: one document handed to the encoder")
+	if err != nil || len(vxmlCaptured) != 1 {
+		return
+	}
+	out, ok := vxmlCaptured[0].(TTMLOut)
+	vassert(ok, "C03 pre-encode: a TTMLOut value")
+	if !ok {
+		return
+	}
+	wantLang := map[string]string{LanguageFrench: "fr", LanguageEnglish: "en", LanguageJapanese: "ja"}[s.Metadata.Language]
+	vassert(out.Lang == wantLang, "C03 pre-encode: language code for the mapped languages, none otherwise")
+	vassert(out.Metadata != nil && out.Metadata.Title == "T" && out.Metadata.Copyright == "C", "C03 pre-encode: title and copyright")
+	vassert(len(out.Regions) == 2 && out.Regions[0].ID == "r0" && out.Regions[1].ID == "r1" && out.Regions[1].Style == ids[k%ns] && out.Regions[1].Origin != nil && *out.Regions[1].Origin == "10% 80%", "C03 pre-encode: regions sorted by id with style reference and attributes")
+	vassert(len(out.Styles) == ns, "C03 pre-encode: every style")
+	for i := 1; i < len(out.Styles); i++ {
+		vassert(out.Styles[i-1].ID < out.Styles[i].ID, "C03 pre-encode: styles sorted by id")
+	}
+	for _, os := range out.Styles {
+		want := ""
+		if s.Styles[os.ID].Style != nil {
+			want = s.Styles[os.ID].Style.ID
+		}
+		vassert(os.Style == want && os.Color != nil && *os.Color == "#00ff00", "C03 pre-encode: style inheritance reference and attributes")
+	}
+	vassert(len(out.Subtitles) == 2, "C03 pre-encode: one paragraph per cue")
+	if len(out.Subtitles) != 2 {
+		return
+	}
+	p := out.Subtitles[0]
+	vassert(int64(p.Begin) == st1 && int64(p.End) == st1+2000000000, "C03 pre-encode: begin and end")
+	vassert(p.Region == "r1" && p.Style == ids[(k+1)%ns] && p.TextAlign != nil && *p.TextAlign == "center", "C03 pre-encode: paragraph references and inline attributes")
+	vassert(len(p.Items) == nl*2+(nl-1), "C03 pre-encode: runs as spans, one br per line break")
+	pos := 0
+	for l := 0; l < nl; l++ {
+		if pos+1 < len(p.Items) {
+			vassert(p.Items[pos].XMLName.Local == "span" && p.Items[pos].Text == "x"+string(rune('0'+l)) && p.Items[pos+1].Text == "y" && p.Items[pos+1].Style == ids[0] &&
+				p.Items[pos+1].FontStyle != nil && *p.Items[pos+1].FontStyle == "italic", "C03 pre-encode: span text, style reference and attributes")
+		}
+		pos += 2
+		if l < nl-1 && pos < len(p.Items) {
+			vassert(p.Items[pos].XMLName.Local == "br", "C03 pre-encode: br between lines")
+			pos++
+		}
+	}
+	vreach("end")
+}
